@@ -67,6 +67,8 @@ CONFIGS = {
     "strict": dict(feat="easy std strict tlsh/opt-default tlsh/simd tlsh/detect-features"),
     # the strict parser without any SIMD / table option: the pair (strict, strict-naive) must agree byte for byte (C07)
     "strict-naive": dict(feat=NAIVE + " strict"),
+    # ... and with the reduced bucket arrays (constants shared between the generator and the validity checks)
+    "strict-lowmem": dict(feat=NAIVE + " strict tlsh/opt-low-memory-buckets"),
     "serde": dict(feat="easy std serde tlsh/opt-default tlsh/simd tlsh/detect-features"),
     "serde-strict": dict(feat="easy std serde strict tlsh/opt-default tlsh/simd tlsh/detect-features"),
     "serde-buffered-strict": dict(feat="easy std serde strict tlsh/serde-buffered tlsh/opt-default tlsh/simd tlsh/detect-features"),
